@@ -4,6 +4,7 @@ implementation observations - they never look at the Coq model) and the Coq lite
 import json
 
 import common as C
+from cli_args import cli_argv
 
 YIELDING = ("gen", "agen", "cm", "acm")
 ASYNC_STYLES = ("coro", "agen", "acm")
@@ -352,15 +353,99 @@ def sprinkle(r, case):
     return case
 
 
+LIVES = ([], [], ["startup"], ["startup"], ["startup", "shutdown", "startup"], ["startup", "shutdown", "startup"],
+         ["startup", "shutdown", "startup"], ["shutdown", "startup"], ["startup", "startup"],
+         ["startup", "shutdown", "startup", "shutdown", "startup"])
+
+
+def add_path(r, case):
+    """how the Receiver that executes the deliveries comes to exist (see deps_driver): for about a fifth of the cases
+    not built by the driver itself but by the worker command line, by taskiq.api.run_receiver_task, or by an
+    InMemoryBroker - fresh, started, or started again after a shutdown - to which the deliveries are sent through its
+    real kick() / the real kicker.  The case's propagate / validate / ack stay what was asked for."""
+    x = r.random()
+    if x >= .21:
+        return case
+    prop, validate, ack = bool(case.get("propagate", True)), bool(case.get("validate", True)), case.get("ack", "when_saved")
+    if x < .05:
+        o = {"no_parse": not validate, "no_propagate": not prop}
+        if ack != "when_saved" or r.random() < .5:
+            o["ack_type"] = ack if r.random() < .7 else ack.upper()
+        if r.random() < .5:
+            o["A"] = r.choice([1, 2, 10, None, 0])
+        if r.random() < .3:
+            o["P"] = r.choice([0, 1, 3])
+        if r.random() < .2:
+            o["N"] = r.choice([1, 5])
+        if r.random() < .2:
+            o["wtt"] = r.choice([0.5, 2.0])
+        case["path"] = {"kind": "cli", "argv": cli_argv(o)}
+    elif x < .09:
+        kw = {}
+        if not validate or r.random() < .5:
+            kw["validate_params"] = validate
+        if not prop or r.random() < .5:
+            kw["propagate_exceptions"] = prop
+        if ack != "when_saved" or r.random() < .5:
+            kw["ack_time"] = ack
+        if r.random() < .5:
+            kw["max_async_tasks"] = r.choice([1, 2, 10, 0])
+        if r.random() < .3:
+            kw["max_prefetch"] = r.choice([0, 1, 3])
+        if r.random() < .3:
+            kw["sync_workers"] = r.choice([1, 2])
+        if r.random() < .2:
+            kw["run_startup"] = r.random() < .5
+        case["path"] = {"kind": "api", "kwargs": kw}
+    else:
+        path = {"kind": "inmemory", "life": list(r.choice(LIVES)), "send": r.choice(["kick", "kicker"])}
+        if r.random() < .4:
+            path["max_async_tasks"] = r.choice([1, 2, 100])
+        if r.random() < .25:
+            path["await_inplace"] = True
+        if r.random() < .3:
+            path["sync_tasks_pool_size"] = r.choice([1, 2, 8])
+        case["path"] = path
+        # the broker hands bare bytes to its receiver (nothing to acknowledge; the receiver's default ack type)
+        case["ack"] = "when_saved"
+        for m in case["msgs"]:
+            m["ackable"] = "none"
+        if "shutdown" in path["life"]:
+            # shutdown() closes the broker's thread pool for good: sync task functions cannot run afterwards
+            for t in case["tasks"]:
+                t["sync"] = False
+    return case
+
+
+def path_profile(case):
+    """evidence keys: how the Receiver that executed the case came to exist"""
+    path = case.get("path")
+    if not path:
+        return ["receiver: built directly" if not (case.get("via_inmemory") and case.get("ack", "when_saved") == "when_saved")
+                else "receiver: the InMemoryBroker's own, callback called directly"]
+    ask = "propagate=%s" % bool(case.get("propagate", True))
+    if path["kind"] in ("cli", "api"):
+        return ["receiver: configured through the %s, %s" % (
+            "worker command line" if path["kind"] == "cli" else "programmatic API (run_receiver_task)", ask)]
+    life = path.get("life") or []
+    phase = ("fresh" if not life else "started" if "shutdown" not in life else
+             "started again after shutdown" + (" (twice)" if life.count("shutdown") > 1 else
+                                               " (never started before)" if life[0] == "shutdown" else ""))
+    keys = ["receiver: InMemoryBroker %s, %s" % (phase, ask),
+            "sent through InMemoryBroker: %s%s" % ("the task's kicker" if path.get("send") == "kicker" else "kick()",
+                                                   ", await_inplace" if path.get("await_inplace") else "")]
+    return keys
+
+
 def gen_case(r):
     x = r.random()
     if x < .12:
-        return gen_override_case(r)
+        return add_path(r, gen_override_case(r))
     if x < .22:
-        return gen_mutation_case(r)
+        return add_path(r, gen_mutation_case(r))
     if x < .30:
-        return gen_value_case(r)
-    return sprinkle(r, gen_plain_case(r))
+        return add_path(r, gen_value_case(r))
+    return add_path(r, sprinkle(r, gen_plain_case(r)))
 
 
 def gen_plain_case(r):
@@ -1256,7 +1341,7 @@ def reductions(case):
             variant(lambda c, i=i: c["msgs"][i].update(pauses=[None]))
             if len(m["pauses"]) > 1:
                 variant(lambda c, i=i: c["msgs"][i].update(pauses=c["msgs"][i]["pauses"][:-1]))
-        if m.get("ackable", "sync") != "sync":
+        if m.get("ackable", "sync") != "sync" and (case.get("path") or {}).get("kind") != "inmemory":
             variant(lambda c, i=i: c["msgs"][i].update(ackable="sync"))
         if m.get("muts"):
             variant(lambda c, i=i: c["msgs"][i].pop("muts"))
@@ -1299,6 +1384,24 @@ def reductions(case):
         variant(lambda c: c.update(middleware=False))
     if case.get("via_inmemory"):
         variant(lambda c: c.update(via_inmemory=False))
+    path = case.get("path")
+    if path:
+        # the receiver built directly by the driver instead (an InMemoryBroker case has nothing to acknowledge: it
+        # stays a well-formed direct case)
+        variant(lambda c: c.pop("path"))
+        if path["kind"] == "inmemory":
+            life = path.get("life") or []
+            if life:
+                variant(lambda c: c["path"].update(life=[]))
+                variant(lambda c: c["path"].update(life=c["path"]["life"][:-1] if c["path"]["life"][-2:] == ["startup", "startup"]
+                                                   else c["path"]["life"][:-2]))
+                if life[0] == "shutdown":
+                    variant(lambda c: c["path"].update(life=["startup"] + c["path"]["life"]))
+            if path.get("send") == "kicker":
+                variant(lambda c: c["path"].update(send="kick"))
+            for key in ("max_async_tasks", "await_inplace", "sync_tasks_pool_size"):
+                if key in path:
+                    variant(lambda c, key=key: c["path"].pop(key))
     return out
 
 
